@@ -108,6 +108,11 @@ pub enum OpKind {
     /// `max_cuts` lengths, evenly spread plus structural boundaries): reopen, compare every query
     /// with the model, close again
     RestartSweep { lazy: bool, blob: usize, max_cuts: u32 },
+    /// damage a file at rest while the storage is open (stored-byte faults)
+    Damage(AtRest),
+    /// keep writing (one record every `gap_ms`) until the active blob has been switched or
+    /// `max_writes` writes were made; liveness probe for rotation
+    OverflowProbe { max_writes: u32, gap_ms: u64 },
     /// poll the operation `k` times, then drop its future (cancellation)
     Cancelled { k: u32, op: Box<OpKind> },
 }
